@@ -223,12 +223,12 @@ func (g *Gen) genMarketAdd() Op {
 	if start <= 0 {
 		start = 1
 	}
-	end := g.c.Time + int64(20+g.r.Intn(2000))
+	end := g.c.Time + int64(pick(g.r, []int{30, 300, 5000, 50000})+g.r.Intn(2000))
 	if g.chance(0.03) {
 		end = g.c.Time // invalid: not after now
 	}
 	status := int64(1)
-	if g.chance(0.1) {
+	if g.chance(0.05) {
 		status = 2
 	}
 	if g.chance(0.02) {
@@ -243,13 +243,13 @@ func (g *Gen) genMarketUpdate() Op {
 		return g.genMarketAdd()
 	}
 	status := int64(1)
-	if g.chance(0.3) {
+	if g.chance(0.2) {
 		status = 2
 	}
 	if g.chance(0.03) {
 		status = 3
 	}
-	end := g.c.Time + int64(1+g.r.Intn(1500))
+	end := g.c.Time + int64(1+g.r.Intn(pick(g.r, []int{50, 1500, 50000})))
 	start := m.start
 	if g.chance(0.2) {
 		start = g.c.Time + int64(g.r.Intn(10))
@@ -294,6 +294,9 @@ func (g *Gen) genMarketResolve() Op {
 
 func (g *Gen) genDeposit() Op {
 	m := g.anyMarket()
+	for i := 0; i < 3 && m != nil && (m.status != 1 || m.resolved); i++ {
+		m = g.anyMarket()
+	}
 	if m == nil {
 		return g.genMarketAdd()
 	}
@@ -414,8 +417,27 @@ func (g *Gen) boundaryAmount(m *gMarket, sel int64, oddsVal, mult *big.Int) (int
 	return stake.Int64() + g.c.Cfg.Bet.Constraints.Fee.Int64(), true
 }
 
+// bettable: active, not past its end, with at least one participation
+func (g *Gen) bettableMarket() *gMarket {
+	var l []*gMarket
+	for _, m := range g.markets {
+		if !m.resolved && m.status == 1 && m.end >= g.c.Time {
+			if bk, ok := g.c.App.OrderbookKeeper.GetOrderBook(g.c.Ctx(), marketUID(m.uid)); ok && bk.ParticipationCount > 0 {
+				l = append(l, m)
+			}
+		}
+	}
+	if len(l) == 0 {
+		return nil
+	}
+	return pick(g.r, l)
+}
+
 func (g *Gen) genWager() Op {
-	m := g.anyMarket()
+	m := g.bettableMarket()
+	if m == nil || g.chance(0.08) {
+		m = g.anyMarket()
+	}
 	if m == nil {
 		return g.genMarketAdd()
 	}
@@ -442,7 +464,7 @@ func (g *Gen) genWager() Op {
 	}
 	sc := g.scale()
 	amt := sc + g.r.Int63n(sc*2+1)
-	if g.chance(0.45) {
+	if g.chance(0.6) {
 		if a, ok := g.boundaryAmount(m, sel, ov, mu); ok {
 			amt = a
 			g.stats["wager_boundary"]++
